@@ -356,11 +356,11 @@ PROPS = {
      'min_outcomes': 8},
     "C18": {
         "level": "model_checking",
-        "technique": "stateless depth-first exploration (CHESS style, preemption-bounded, replay-based) of all interleavings of the real accept-loop poll and the real signal handler at hook-provided scheduling points, with a real SIGINT, one fresh process per schedule; plus exhaustive enumeration of session mixes x completion orders",
+        "technique": "stateless depth-first exploration (CHESS style, preemption-bounded, replay-based) of all interleavings of the real accept-loop poll and the real signal handler at hook-provided scheduling points, with a real SIGINT, one fresh process per schedule; plus exhaustive enumeration of session mixes x completion orders; plus loom (DPOR over the C11 memory model) on the WaitGroup source extracted from the working tree",
         "engine": "vmc (+ shutdown_child, one process per schedule) + harness_loom (loom over the extracted WaitGroup source)",
         "custom_runner": "c18_runner",
         "level_text": "(a) Interleaving space of the lost-wake-up protocol: threads P (the poll of howl's until_interrupt: before polling accept / after reading the flag as false / after publishing the waker) and H (ctrlc's handler thread: before store / after store / after swap / after wake) are stepped one atomic action at a time by a controller; environment events SIG (real SIGINT) and CONN (a client connects). All schedules within a preemption bound are explored depth-first by re-execution (quick: bound 4 without CONN, bound 2 with one CONN; thorough: bounds 8 / 5 / 4 for 0 / 1 / 2 CONN - bound 8 is the complete interleaving space for the first poll). Quiescence is decided (no enabled actor), the oracle is: howl returned <=> SIGINT was raised. (b) In-flight sessions: 0..2 (quick) / 0..3 (thorough) sessions of kinds {handler blocked on a harness gate, idle keep-alive connection} x every permutation of {SIGINT, session k finishes}; after every event: returned == (signal seen and all sessions finished), and every blocked handler still delivers its response.",
-        "level_note": "Trusted: hook H6 (scheduling points placed between the atomic operations; the points themselves do not change the operations), the controller's canonical choice order, the child replaying a prefix exactly (any divergence is exit 2). Not covered: weak-memory reorderings of WaitGroup's Relaxed/Release/Acquire counter (the controller serialises at hook points; x86-TSO), runtimes other than tokio (glommio's Mutex<Vec<Waker>> variant). The Promela extension of DESIGN section 5 was not built (section 12).",
+        "level_note": "Trusted: hook H6 (scheduling points placed between the atomic operations; the points themselves do not change the operations), the controller's canonical choice order, the child replaying a prefix exactly (any divergence is exit 2). Part (c), added in the fourth round: the source text of sync::WaitGroup is extracted from /repo's working tree by harness_loom/build.rs, its atomics are re-targeted at loom, and loom explores exhaustively (DPOR; unbounded for <=3 session threads, preemption bound 2-3 for 4-5; C11 memory model, so the Relaxed/Release/Acquire orderings of the counter are decided too) every interleaving of the accept thread (add per connection, then poll) with the session threads (work, then drop of the guard): Ready implies every session's work is complete and visible (loom reports a missing happens-before edge as a data race), Pending has asked for a wake-up, and at quiescence poll answers Ready. Trusted there: the textual extraction (evidence records the extracted region and howl's four lines that use it; the driver mirrors them), loom's model of C11. Not covered: the CATCH/WAKER statics under weak memory (all SeqCst), runtimes other than tokio (glommio's Mutex<Vec<Waker>> variant). The Promela extension of DESIGN section 5 was replaced by an explicit-state protocol model in the engine (section 12).",
         "jobs": {"quick": 16, "thorough": 16},
         "wall_cap_s": {"quick": 50, "thorough": 1500},
         "assumptions": COMMON_ASSUMPTIONS + ["tokio multi-thread runtime with 2 workers in the child; timing-dependent waits (reactor wake after CONN, settle times in the coarse part) can only cause exit 2 or confirm a due return, never an alarm"],
@@ -397,6 +397,8 @@ ENGINES = [
      "kind_free_text": "python plug-in of ./check around the vmc engine harness/src/engines/c15.rs: runs the workers (applications assembled at run time from a compile-time handler catalogue, documents from the real __openapi_document_bytes__), then validates every distinct dumped schema under JSON Schema 2020-12 with jsonschema (python3-vt, lib/c15_check.py)"},
     {"name": "schema_mc", "path": "/verif/lib/c16_runner.py", "serves_properties": ["C16"],
      "kind_free_text": "python plug-in of ./check: enumerates type definitions from a bounded attribute grammar (lib/c16_gen.py), compiles them against the current tree, observes serde and the derived schema at run time (c16/common.rs), judges with jsonschema under python3-vt (lib/c16_check.py)"},
+    {"name": "waitgroup_loom", "path": "/verif/harness_loom/src/main.rs", "serves_properties": ["C18"],
+     "kind_free_text": "loom 0.7 (exhaustive DPOR exploration of thread interleavings under the C11 memory model) over the source text of ohkami's sync::WaitGroup, which harness_loom/build.rs extracts from /repo's current working tree and re-targets at loom's atomics; scenarios are run one process each by lib/c18_runner.py, which also runs the vmc part of C18"},
     {"name": "vmc", "path": "/verif/harness/src/bin/vmc.rs", "serves_properties": sorted(k for k in PROPS.keys() if k != "C16"),
      "kind_free_text": "hand-rolled stateless explorers in Rust linking the real ohkami crates by path; one module per property under harness/src/engines; worker processes sharded by the python driver ./check"},
 ]
